@@ -48,12 +48,18 @@ type c11Slot struct {
 	Attr    bool
 	Params  map[string]string // parameters of the type attribute that the minifier must receive
 	Quoting bool              // CSS url(): the output must re-lex as one URL token carrying the payload's minification
+	// ErrStart/ErrEnd (when ErrEnd > 0): the span of the outer construct an error of this
+	// payload must be located in, when that is wider than the payload (a conditional comment)
+	ErrStart, ErrEnd int
 }
 
 type c11Host struct {
 	MT    string
 	Doc   []byte
 	Slots []c11Slot
+	// KeepCond: the host holds a downlevel-hidden conditional comment with embedded content;
+	// the host minifier is configured to keep such comments (their content is minified as HTML)
+	KeepCond bool
 }
 
 var c11Payloads = map[string][]string{
@@ -67,6 +73,7 @@ var c11Payloads = map[string][]string{
 	"image/svg+xml":          {"<svg xmlns=\"http://www.w3.org/2000/svg\" width=\"10\">  <path d=\"M 10 10 L 20 20\"/>  </svg>"},
 	"application/mathml+xml": {"<math>  <mi> x </mi>  </math>"},
 	"text/html":              {"<p>  inner  </p>"},
+	"text/plain":             {"hello  plain   text", "a b"},
 }
 
 var c11BadPayloads = map[string][]string{
@@ -85,11 +92,19 @@ func buildHost(tape *sim.Tape, bad bool) *c11Host {
 	add := func(prefix string, s c11Slot, suffix string) {
 		if h.MT == "text/html" && !s.Attr && strings.HasPrefix(prefix, "<s") {
 			// script/style elements also occur inside other elements, e.g. preformatted text
-			switch tape.Draw(5) {
+			switch tape.Draw(6) {
 			case 1:
 				prefix, suffix = "<pre>\n"+prefix, strings.TrimSuffix(suffix, "\n")+"</pre>\n"
 			case 2:
 				prefix, suffix = "<div><p>x</p>"+prefix, strings.TrimSuffix(suffix, "\n")+"</div>\n"
+			case 3:
+				// inside a downlevel-hidden conditional comment, which the host is told to keep:
+				// its content is HTML like any other, and an error in it is an error in this
+				// document, located in the comment
+				prefix, suffix = "<!--[if lt IE 9]>"+prefix, strings.TrimSuffix(suffix, "\n")+"<![endif]-->\n"
+				h.KeepCond = true
+				s.ErrStart = doc.Len()
+				s.ErrEnd = doc.Len() + len(prefix) + len(s.Payload) + len(suffix)
 			}
 		}
 		doc.WriteString(prefix)
@@ -260,7 +275,9 @@ func buildHost(tape *sim.Tape, bad bool) *c11Host {
 			}
 			add("<script type=\"text/template\">", c11Slot{MT: "text/template", Payload: pick("text/template"), Ctx: "<script type=text/template>"}, "</script>\n")
 		case 4:
-			add([]string{"<style>", "<style type=\"text/css\">", "<style media=\"screen\">"}[tape.Draw(3)],
+			// (attributes other than type do not change what the content is: AMP's author
+			// styles, a nonce, a media query)
+			add([]string{"<style>", "<style type=\"text/css\">", "<style media=\"screen\">", "<style amp-custom>", "<style amp-keyframes>", "<style nonce=\"n0nce\" media=\"print\">", "<style id=s1 data-x=\"amp-boilerplate\">"}[tape.Draw(7)],
 				c11Slot{MT: "text/css", Payload: pick("text/css"), Ctx: "<style>"}, "</style>\n")
 		case 5:
 			add([]string{"<p style=\"", "<td class=c style=\"", "<span STYLE=\""}[tape.Draw(3)], c11Slot{MT: "text/css", Inline: true, Payload: pick("css-decl"), Ctx: "style=", Attr: true}, "\">x</p>\n")
@@ -291,9 +308,13 @@ func buildHost(tape *sim.Tape, bad bool) *c11Host {
 		case 9:
 			add("<iframe>", c11Slot{MT: "text/html", Payload: pick("text/html"), Ctx: "<iframe>"}, "</iframe>\n")
 		case 10, 11:
-			key := []string{"image/svg+xml", "text/css"}[tape.Draw(2)]
+			key := []string{"image/svg+xml", "text/css", "text/plain"}[tape.Draw(3)]
 			pl := pick(key)
 			enc, mt, pl, prm := encodeDataURI(tape, key, pl)
+			if key == "text/plain" && len(prm) == 0 && tape.Draw(2) == 0 {
+				// the default media type of a data: URI, not written out
+				enc = "data:" + strings.TrimPrefix(enc, "data:text/plain")
+			}
 			doc.WriteString([]string{"<img src=\"", "<a href=\""}[k-10])
 			s := c11Slot{MT: mt, Payload: pl, Ctx: "html data: URI", Via: "datauri", Attr: true, Params: prm}
 			s.Start = doc.Len()
@@ -329,6 +350,7 @@ func buildHost(tape *sim.Tape, bad bool) *c11Host {
 var c11Literal = map[string]string{
 	"image/svg+xml": "<svg xmlns='http://www.w3.org/2000/svg'  width='10'>  <path d='M 10 10  L 20\t20'/>  </svg>",
 	"text/css":      "a  {  color :  #ff0000 ;\tmargin :  0px  }",
+	"text/plain":    "hello  plain\ttext",
 }
 
 // encodeDataURI writes payload as a data: URI for media type mt in one of the spellings of
@@ -368,7 +390,7 @@ func c11Case(env *Env, tape *sim.Tape) *CaseOut {
 	bad := tape.Draw(5) == 0
 	h := buildHost(tape, bad)
 	types := []string{"application/javascript", "text/javascript", "module", "application/ld+json", "text/template", "text/css", "image/svg+xml", "application/mathml+xml", "text/html",
-		"text/xsl", "text/x-custom-style-language", "importmap", "speculationrules"}
+		"text/xsl", "text/x-custom-style-language", "importmap", "speculationrules", "text/plain"}
 	modes := map[string]int{}
 	swarm := tape.Draw(3) // 0: everything real; 1: mostly stubs; 2: mixed
 	for _, t := range types {
@@ -480,7 +502,7 @@ func c11Case(env *Env, tape *sim.Tape) *CaseOut {
 	var hostMin minify.Minifier
 	switch h.MT {
 	case "text/html":
-		hostMin = &html.Minifier{}
+		hostMin = &html.Minifier{KeepSpecialComments: h.KeepCond}
 	case "image/svg+xml":
 		hostMin = &svg.Minifier{}
 	default:
@@ -675,8 +697,13 @@ func c11Case(env *Env, tape *sim.Tape) *CaseOut {
 			if errors.As(hostErr, &pe) {
 				off := offsetOf(h.Doc, pe.Line, pe.Column)
 				out.stat("probe_located_error_checked", 1)
-				if off < badSlot.Start-1 || off > badSlot.End+1 {
-					return fail("error-position", badSlot.Ctx+":real", fmt.Sprintf("error reported at line %d column %d (offset %d), the failing construct spans offsets %d..%d of the outer document", pe.Line, pe.Column, off, badSlot.Start, badSlot.End))
+				lo, hi := badSlot.Start, badSlot.End
+				if badSlot.ErrEnd > 0 {
+					lo, hi = badSlot.ErrStart, badSlot.ErrEnd
+					out.stat("probe_located_error_inside_conditional_comment", 1)
+				}
+				if off < lo-1 || off > hi+1 {
+					return fail("error-position", badSlot.Ctx+":real", fmt.Sprintf("error reported at line %d column %d (offset %d), the failing construct spans offsets %d..%d of the outer document", pe.Line, pe.Column, off, lo, hi))
 				}
 			}
 		}
